@@ -80,6 +80,8 @@ def lint_data_independence(ctx, fn, where, value_params):
                 continue
             if isinstance(n, ast.Attribute) and n.attr == "pop":
                 continue
+            if isinstance(n, ast.Subscript) and isinstance(n.slice, ast.Constant) and isinstance(n.slice.value, int):
+                continue  # picking an element by position: the table enumerates every ordering of the values
             problems.append(f"{type(n).__name__} `{norm(n)[:60]}`")
     ctx.check("K8-lint", where, not problems, "value parameters are used only through equality/membership operators", construct="; ".join(problems[:4]), message="data-independence lint failed: " + "; ".join(problems[:4]))
     return not problems
